@@ -81,6 +81,7 @@ uint64_t __fpsym_neg(uint64_t sa,double a){ if(!sa) return 0; Guard g; return mk
 void __fpsym_cmp(int pred,uint64_t sa,uint64_t sb,double a,double b,int res){ if(!(sa|sb)) return; Guard g;
   if(pred==8||pred==7){ if((pred==8 && res)||(pred==7 && !res)) nan_true++; return; }   // uno / ord : NaN guards
   if(sa==sb){ return; }
+  if((!sa && a!=a)||(!sb && b!=b)) return;   // a CONCRETE NaN operand: the outcome of the comparison does not depend on the symbolic side, no constraint
   if(!sa) sa=K(a); if(!sb) sb=K(b); pc.push_back({pred,sa,sb,res}); }
 void __fpsym_toint(uint64_t sa,double a,long v,int sgn){ if(!sa) return; Guard g; pc.push_back({100+sgn,sa,0,v}); }
 uint64_t __fpsym_load(char*p){ if (shadow.empty()) return 0; Guard g; auto it=shadow.find((uintptr_t)p); return it==shadow.end()?0:it->second; }
